@@ -22,13 +22,13 @@ import (
 
 	"verif/lib/ev"
 	"verif/lib/explore"
-	"verif/lib/loopworld"
-	"verif/lib/xrun"
 	"verif/lib/fleet"
 	"verif/lib/inst"
+	"verif/lib/loopworld"
 	"verif/lib/par"
 	"verif/lib/statemc"
 	"verif/lib/world"
+	"verif/lib/xrun"
 )
 
 type sv struct { // stored version
@@ -72,6 +72,20 @@ func settle(f *fleet.Fleet, maxRounds int) (uploads []int, err error) {
 		}
 		uploads = append(uploads, n)
 		if n == 0 && round > 0 {
+			// quiescent: everything is merged everywhere. One more exchange must not even commit a transaction.
+			for i := range f.I {
+				for j := range f.I {
+					if nm := f.Newest(j); i != j && nm != "" {
+						before := f.I[i].Env.LastTxnID()
+						if err := f.Apply(fmt.Sprintf("L%d:%d", i, sort.SearchStrings(f.Blobs(), nm))); err != nil {
+							return uploads, err
+						}
+						if now := f.I[i].Env.LastTxnID(); now != before {
+							return uploads, fmt.Errorf("NOOP-COMMIT: instance %d merged the already merged newest snapshot of instance %d and committed a transaction (%d -> %d)", i, j, before, now)
+						}
+					}
+				}
+			}
 			return uploads, nil
 		}
 	}
@@ -110,7 +124,9 @@ func expand(hist []string, param json.RawMessage) statemc.Result {
 		s.Key = fleet.Hash(g.Canon())
 		// write-free phase
 		ups, err := settle(g, 8)
-		if err != nil {
+		if err != nil && strings.HasPrefix(err.Error(), "NOOP-COMMIT") {
+			s.Viols = append(s.Viols, statemc.Viol{Sig: "transaction-committed-by-noop-merge-in-quiescent-fleet", Msg: err.Error()})
+		} else if err != nil {
 			s.Viols = append(s.Viols, statemc.Viol{Sig: "impl-error-in-settle", Msg: err.Error()})
 		} else {
 			total := 0
@@ -180,6 +196,10 @@ func main() {
 	verifhook.SetSkip(func(string) bool { return true })
 	storedAlpha := []sv{{false, 0, false, ""}, {true, 20, false, "m"}, {true, 20, true, ""}, {true, 20, false, ""}, {true, 0, false, "m"}}
 	incomingKinds := []string{"absent", "same", "older-live", "older-del", "tie-loser"}
+	var incomingKinds2 []string // second key: each kind with and without a filler key in the DBI
+	for _, k := range incomingKinds {
+		incomingKinds2 = append(incomingKinds2, k, k+"/nofiller")
+	}
 	for _, native := range []bool{true, false} {
 		for _, padding := range []bool{false, true} {
 			if padding && !native {
@@ -192,7 +212,11 @@ func main() {
 							continue
 						}
 						for _, ka := range incomingKinds {
-							for _, kb := range incomingKinds {
+							for _, kbf := range incomingKinds2 {
+								kb, filler := strings.TrimSuffix(kbf, "/nofiller"), !strings.HasSuffix(kbf, "/nofiller")
+								if !filler && (native || fv != 3) {
+									continue // the variant without a filler key (application DBI possibly empty) is a shadow-mode case
+								}
 								if !native && (sa.ts == 0 && sa.present || sb.ts == 0 && sb.present) {
 									continue // shadow entries are always stamped
 								}
@@ -211,8 +235,17 @@ func main() {
 											}
 										} else {
 											// shadow mode: application DBI plus matching shadow DBI, as left behind by earlier sync steps
-											inst.PlainPut(txn, "d", 0, []byte("zz"), []byte("filler"))
-											inst.NativePut(txn, world.ShadowPrefix+"d", []byte("zz"), 1, false, []byte("filler"))
+											if filler {
+												inst.PlainPut(txn, "d", 0, []byte("zz"), []byte("filler"))
+												inst.NativePut(txn, world.ShadowPrefix+"d", []byte("zz"), 1, false, []byte("filler"))
+											} else {
+												// no other key: the application DBI is empty when both keys are absent or deleted
+												for _, n := range []string{"d", world.ShadowPrefix + "d"} {
+													if _, err := txn.OpenDBI(n, lmdb.Create); err != nil {
+														return err
+													}
+												}
+											}
 											if v.present {
 												if !v.del && v.val != "" {
 													inst.PlainPut(txn, "d", 0, []byte(k), []byte(v.val))
@@ -286,9 +319,9 @@ func main() {
 								id, changed, err := a.Load(snapshot.Name(inst.DBName, "b", "GX", time.Unix(0, int64(clock))), data, header.TxnID(last))
 								pa.Executions++
 								pa.Transitions++
-								rep := map[string]any{"native": native, "padding": padding, "fv": fv, "stored_a": fmt.Sprint(sa), "stored_b": fmt.Sprint(sb), "incoming_a": ka, "incoming_b": kb}
-								desc := fmt.Sprintf("native=%v padding=%v fv=%d stored a=%v b=%v incoming a=%s b=%s", native, padding, fv, sa, sb, ka, kb)
-								classes[fmt.Sprintf("%v/%v/%d/%s/%s", native, padding, fv, ka, kb)] = true
+								rep := map[string]any{"native": native, "padding": padding, "fv": fv, "stored_a": fmt.Sprint(sa), "stored_b": fmt.Sprint(sb), "incoming_a": ka, "incoming_b": kb, "filler": filler}
+								desc := fmt.Sprintf("native=%v padding=%v fv=%d filler-key=%v stored a=%v b=%v incoming a=%s b=%s", native, padding, fv, filler, sa, sb, ka, kb)
+								classes[fmt.Sprintf("%v/%v/%d/%s/%s/%v", native, padding, fv, ka, kb, filler)] = true
 								if err != nil {
 									r.Violate(pa.Name, "load-error", desc+": "+err.Error(), rep)
 								} else {
@@ -317,7 +350,7 @@ func main() {
 	verifhook.SetNow(nil)
 	pa.States = int64(len(classes))
 	pa.Distinct = int64(len(classes))
-	pa.Bound = "native/shadow x padding x format 1..3 x stored versions of two keys {absent, live m@20, deleted@20, live ''@20, live m@0} x incoming per key {absent, identical, older live, older deleted, same-timestamp tie loser} (quick: half of the stored pairs for formats 1,2)"
+	pa.Bound = "native/shadow x padding x format 1..3 x stored versions of two keys {absent, live m@20, deleted@20, live ''@20, live m@0} x incoming per key {absent, identical, older live, older deleted, same-timestamp tie loser} (quick: half of the stored pairs for formats 1,2); shadow mode format 3 also without any other key, so that the application DBI is empty when both keys are absent or deleted"
 	pa.Samples = []any{"native=true padding=true fv=2 stored a={true 20 true } b={false 0 false } incoming a=same b=absent"}
 	r.AddPart(pa)
 
@@ -354,7 +387,7 @@ func main() {
 			continue
 		}
 		xrun.Explore(r, name, xrun.Opts{Kind: "loop", Bound: ev.Pick(r, 2, 3), Budget: 30, Recycle: 4,
-			Param: loopworld.Cfg{Native: native, Remote2: true, NoopRemote: true, TwoRemotes: true, MaxVisits: 1, AppOps: []string{"put-b", "del-a"}}})
+			Param: loopworld.Cfg{Native: native, Remote2: true, NoopRemote: true, TwoRemotes: true, ForceInterval: true, MaxVisits: 1, AppOps: []string{"put-b", "del-a"}}})
 	}
 	r.Finish()
 }
